@@ -15,7 +15,7 @@ RULE = ("cases = seeded APIs spanning the operation_info type-resolution matrix 
         "loopback HTTP server whose polls must follow the YAML rule; the judge checks the future "
         "type, where and on which channel polls arrive, the GetOperation request, and type + content of result()/metadata; "
         "distinct = distinct (response location, metadata location, qualification, history, client kind) that held")
-ASSUMPTIONS = ["polling sleeps go through a virtual clock patched into google.api_core.retry", "REST long-running operations are exercised for the synchronous REST transport only",
+ASSUMPTIONS = ["polling sleeps go through a virtual clock patched into google.api_core.retry", "REST long-running operations: the synchronous REST transport, and (with rest_async_io_enabled) the asyncio client on the rest_asyncio transport",
                "proto sub-packages appear only as sibling sub-packages (service package + one sibling); root files next to sub-packages do not import on the unchanged tree (DESIGN 10.2)"]
 CASE_TIMEOUT = 400
 PARALLEL = 12
@@ -25,13 +25,13 @@ CODES = {3: "INVALID_ARGUMENT", 5: "NOT_FOUND", 7: "PERMISSION_DENIED", 9: "FAIL
 def floors(tier):
     k = 1 if tier == "quick" else 8
     return {"lro_histories": 300 * k, "polls_observed": 300 * k, "results_typed": 150 * k, "errors_mapped": 60 * k, "rejections_checked": (4 if tier == "quick" else 20),
-            "raw_operation_calls": 16 * k, "resp:far": 30 * k, "meta:far": 30 * k, "resp:empty": 20 * k, "client:aio": 120 * k, "rest_lro_histories": 40 * k, "meta:sibling": 10 * k}
+            "raw_operation_calls": 16 * k, "resp:far": 30 * k, "meta:far": 30 * k, "resp:empty": 20 * k, "client:aio": 120 * k, "rest_lro_histories": 40 * k, "meta:sibling": 10 * k, "async_rest_lro_histories": 20 * k}
 
 
 def plan(seed, tier):
     n = 10 if tier == "quick" else 90
     cases = [{"id": f"lro-{seed}-{i}", "seed": seed * 100003 + i, "broken": None} for i in range(n)]
-    cases += [{"id": f"lro-rest-{seed}-{i}", "seed": seed * 100003 + 3000 + i, "broken": None, "rest": ["unlisted", "listed", "norules"][i % 3]} for i in range(max(6, n // 3))]
+    cases += [{"id": f"lro-rest-{seed}-{i}", "seed": seed * 100003 + 3000 + i, "broken": None, "rest": ["unlisted", "listed", "norules"][i % 3], "async_rest": (i // 3) % 2 == 1} for i in range(max(6, n // 3))]
     # the service in a proto sub-package next to a sibling sub-package (relative names are relative to the method's package)
     cases += [{"id": f"lro-sub-{seed}-{i}", "seed": seed * 100003 + 5000 + i, "broken": None, "subpkg": True} for i in range(max(3, n // 4))]
     for i, b in enumerate(["no_response", "no_metadata", "both_empty"] * (2 if tier == "quick" else 8)):
@@ -42,7 +42,7 @@ def plan(seed, tier):
 def build_api(case):
     rng = random.Random(case["seed"])
     return apigen.lro_api(rng, "j%d" % (case["seed"] % 100000), broken=case["broken"], rest=case.get("rest") or False,
-                          subpkg=bool(case.get("subpkg")))
+                          subpkg=bool(case.get("subpkg")), async_rest=bool(case.get("async_rest")))
 
 
 def resolve(pkg, name):
@@ -103,7 +103,10 @@ def run_case(case):
         if not info:
             continue
         rtype, mtype = resolve(p.package, info[0]), resolve(p.package, info[1])      # relative to the METHOD's package
-        for kind in (("grpc", "aio", "rest") if api.info.get("rest_lro") else ("grpc", "aio")):
+        kinds = ("grpc", "aio")
+        if api.info.get("rest_lro"):
+            kinds = ("grpc", "aio", "rest", "arest") if api.info["rest_lro"].get("async") else ("grpc", "aio", "rest")
+        for kind in kinds:
             for k in rng.sample([0, 1, 2, 3], 2):
                 for outcome in ("response", "error"):
                     opname = "projects/p1/operations/op-%d" % rng.randint(1, 10 ** 6)
@@ -139,7 +142,7 @@ def run_case(case):
                     else:
                         first_reply = first
                     extra = {}
-                    if kind == "rest":
+                    if kind in ("rest", "arest"):
                         extra = {"first_json": op_json(first_reply, mtype, rtype, model), "polls_json": [op_json(model.parse("google.longrunning.Operation", rdm.unb64(p_)), mtype, rtype, model) for p_ in polls] + [op_json(last, mtype, rtype, model)],
                                  "poll_prefix": api.info["rest_lro"]["prefix"], "ops_in_apis": api.info["rest_lro"]["operations_listed_under_apis"]}
                     calls.append({**base, **extra, "kind": "lro", "client": kind, "request": rdm.b64(x.SerializeToString()),
@@ -203,8 +206,10 @@ def judge(model, call, r, proxy_log, bump):
     polls = r["poll_events"]
     need = 0 if call["first_done"] else call["k"] + 1
     bump("polls_observed", len(polls))
-    if call["client"] == "rest":
+    if call["client"] in ("rest", "arest"):
         bump("rest_lro_histories")
+        if call["client"] == "arest":
+            bump("async_rest_lro_histories")
         want_path = call["poll_prefix"] + "/" + call["opname"]
         for e in polls:
             if e["verb"] != "GET" or e["path"] != want_path:
@@ -343,7 +348,43 @@ def in_runner(script):
 
     async def amain():
         ac = {}
+        arc = {}
         for i, call in enumerate(script["calls"]):
+            if call["client"] == "arest":
+                # asyncio client on the experimental rest_asyncio transport
+                nonlocal http
+                if http is None:
+                    http = rt.HttpServer()
+                svc = call["service"]
+                if svc not in arc:
+                    from google.auth.aio.credentials import AnonymousCredentials as AsyncAnonymous
+                    C = lib.client_cls(svc, asyn=True)
+                    T = C.get_transport_class("rest_asyncio")
+                    arc[svc] = C(transport=T(host=http.host, url_scheme="http", credentials=AsyncAnonymous()))
+                http.script([{"status": 200, "body": call["first_json"]}] + [{"status": 200, "body": pj} for pj in call["polls_json"]])
+                mark = http.mark()
+                o = {}
+                try:
+                    ret = await getattr(arc[svc], call["method"])(request=lib.mk(call["req_type"], rt.unb64(call["request"])))
+                    o["is_future"] = hasattr(ret, "result") and hasattr(ret, "operation") and hasattr(ret, "metadata")
+                    o["returned_type"] = type(ret).__module__ + "." + type(ret).__name__
+                    if o["is_future"]:
+                        try:
+                            res = await ret.result(timeout=600)
+                            o["result_type"], o["result"] = rt.ser(res) if res is not None else (None, None)
+                        except BaseException as e:  # noqa
+                            o["result_error"] = rt.exc_info(e)
+                        try:
+                            md = ret.metadata
+                            o["metadata_type"], o["metadata"] = rt.ser(md)
+                        except BaseException as e:  # noqa
+                            o["metadata_error"] = rt.exc_info(e)
+                except BaseException as e:  # noqa
+                    o["call_error"] = rt.exc_info(e)
+                o["poll_events"] = http.since(mark)[1:]
+                http.script([])
+                results[i] = o
+                continue
             if call["client"] != "aio":
                 continue
             svc = call["service"]
